@@ -91,6 +91,15 @@ def wrap_1d(kind, data, name):
         return pd.DataFrame({name or "col": arr})
     if kind == "pl_frame_select":
         return pl.DataFrame({name or "col": arr, "other": arr * 2.0 + 1.0})
+    if kind == "named_tuple":
+        # (name, values) - what iterating over a pandas groupby yields
+        return (name or "group", pd.Series(arr))
+    if kind == "pl_series_chunked":
+        # a Series that lives in two memory chunks (no zero-copy view exists)
+        k_ = len(arr) // 2
+        s_ = pl.Series(name or "", arr[:k_])
+        s_.append(pl.Series(name or "", arr[k_:]))
+        return s_
     if kind == "pl_series":
         return pl.Series(name or "", arr)
     if kind == "pl_series_int":
@@ -198,6 +207,9 @@ def check_1d(case, ctx: Ctx):
         else:
             got = ctx.call("DataFrame.physt.histogram(column)", lambda: frame.assign(unrelated=1.0).physt.histogram(colname, bins=edges, **akw))
         name = colname
+    elif kind == "named_tuple":
+        got = ctx.call("h1((name, values))", physt.h1, container, edges, **kw)
+        require(got.name == (name or "group"), "name_from_tuple", f"{got.name!r}")
     elif kind == "pl_frame_select":
         akw = {k: v for k, v in kw.items() if k != "axis_name"}
         got = ctx.call("polars DataFrame.physt.h(column)", container.physt.h, name or "col", bins=edges, **akw)
@@ -230,7 +242,8 @@ def cases_1d(draw, tier="quick"):
         data[draw(st.integers(0, len(data) - 1))] = float("nan")
     kind = draw(st.sampled_from(["list", "tuple", "iterator", "generator", "nested", "array2d", "array2d_fortran", "array2d_view", "pd_series", "pd_series", "pd_series", "pd_series_int",
                                  "pd_series_Int64", "pd_series_Int64", "pl_series", "pl_series", "pl_series_int", "pl_frame1", "dask", "array2d_fortran", "array2d_view",
-                                 "pd_series_f32", "pd_series_f32", "pl_series_f32", "array_f32", "pd_df_col", "pd_df_col", "pd_df_one", "pd_df_histogram", "pl_frame_select"]))
+                                 "pd_series_f32", "pd_series_f32", "pl_series_f32", "array_f32", "pd_df_col", "pd_df_col", "pd_df_one", "pd_df_histogram", "pl_frame_select",
+                                 "named_tuple", "pl_series_chunked"]))
     wk, ws = draw(gen.weights_for(len(data), kinds=("none", "int", "dyadic")))
     wcont = draw(st.sampled_from(["array", "array", "list", "pd_series", "pl_series"]))
     if wcont == "pl_series" and not kind.startswith("pl_"):
